@@ -57,7 +57,7 @@ LabelsC02 == {"C02_CertIsServedChain", "C02_KeyIsCsrKey"}
 LabelsC03 == {"C03_PairOK", "C03_Untouched"}
 LabelsC05 == {"C05_ConfiguredType", "C05_Proof", "C05_HooksBeforeReady", "C05_NoHookWhenValid",
               "C05_CleanSameData", "C05_PostsConfiguredType", "C05_SolvableIsSolved"}
-LabelsC07 == {"C07_ExactlyOnePostOp", "C07_SuccessIffInstalled", "C07_FailureCarriesError",
+LabelsC07 == {"C07_HookFailureFailsAttempt", "C07_ExactlyOnePostOp", "C07_SuccessIffInstalled", "C07_FailureCarriesError",
               "C07_PauseAfterFailure", "C07_Alive", "C07_PostOpReportsResult", "C07_HealthySucceeds"}
 
 NoAuthz == [id |-> "none", orig |-> "none", status |-> "none", offered |-> {},
@@ -81,7 +81,7 @@ InitWith(c, k, crt) ==
     /\ cfg = c /\ keyFile = k /\ certFile = crt
     /\ phase = "idle" /\ reached = 0 /\ authz = NoAuthz /\ authzSeen = {} /\ hooksRun = <<>>
     /\ cleanDue = <<>> /\ csr = NoCsr /\ served = "none" /\ keyUsed = "none" /\ wrote = {}
-    /\ postOps = 0 /\ result = [done |-> FALSE, ok |-> FALSE, status |-> "none"]
+    /\ postOps = 0 /\ result = [done |-> FALSE, ok |-> FALSE, status |-> "none", hf |-> FALSE]
     /\ snapshot = [key |-> "none", cert |-> "none", ok |-> TRUE]
     /\ clock = 0 /\ lastFail = NoFail /\ attempts = 0 /\ succeeded = FALSE /\ bad = {} /\ pc = "idle"
 
@@ -99,7 +99,7 @@ AttemptStart(real) ==
     /\ phase' = "running" /\ reached' = 0 /\ authz' = NoAuthz /\ authzSeen' = {}
     /\ hooksRun' = <<>> /\ cleanDue' = <<>> /\ csr' = NoCsr /\ served' = "none"
     /\ keyUsed' = "none" /\ wrote' = {} /\ postOps' = 0
-    /\ result' = [done |-> FALSE, ok |-> FALSE, status |-> "none"]
+    /\ result' = [done |-> FALSE, ok |-> FALSE, status |-> "none", hf |-> FALSE]
     /\ snapshot' = [key |-> keyFile.sha, cert |-> certFile.sha, ok |-> PairOK(keyFile, certFile)]
     /\ attempts' = attempts + 1
     /\ Keep(<<cfg, keyFile, certFile, clock, lastFail, succeeded>>)
@@ -199,11 +199,19 @@ CertServed(sha, genuine) ==
     /\ Keep(<<cfg, keyFile, certFile, phase, authz, authzSeen, hooksRun, cleanDue, csr, keyUsed,
               wrote, postOps, result, snapshot, clock, lastFail, attempts, succeeded>>)
 
+(* A hook of this attempt ended with a non-zero exit code or was killed by a signal, and its  *)
+(* definition does not say allow_failure.                                                      *)
+HookFailed ==
+    /\ result' = [result EXCEPT !.hf = TRUE] /\ bad' = {}
+    /\ Keep(<<cfg, keyFile, certFile, phase, reached, authz, authzSeen, hooksRun, cleanDue, csr, served,
+              keyUsed, wrote, postOps, snapshot, clock, lastFail, attempts, succeeded>>)
+
 (* request_certificate returned.                                                 *)
 ReqEnd(ok, status) ==
-    /\ result' = [done |-> TRUE, ok |-> ok, status |-> status]
+    /\ result' = [done |-> TRUE, ok |-> ok, status |-> status, hf |-> result.hf]
     /\ phase' = "reqdone"
     /\ bad' = Chk("C07_FailureCarriesError", ok \/ (status # "" /\ status # "success" /\ status # "none"))
+         \cup Chk("C07_HookFailureFailsAttempt", result.hf => ~ok)     \* a hook that ended badly (exit code or signal) without allow_failure is a failed step
     /\ Keep(<<cfg, keyFile, certFile, reached, authz, authzSeen, hooksRun, cleanDue, csr, served,
               keyUsed, wrote, postOps, snapshot, clock, lastFail, attempts, succeeded>>)
 
